@@ -670,8 +670,15 @@ def SUMPRODUCT(
             raise xlerrors.NaExcelError(
                 "Excel Errors are present in the sumproduct items.")
 
-    sumproduct = pd.concat(arrays, axis=1)
-    return sumproduct.prod(axis=1).sum()
+    # Multiply the arrays element by element (entries that are not numbers
+    # count as zero) and add up the products.
+    sumproduct = 0
+    for items in zip(*[xl.flatten(array) for array in arrays]):
+        product = 1
+        for item in items:
+            product *= item if func_xltypes.Number.is_type(item) else 0
+        sumproduct += product
+    return sumproduct
 
 
 @xl.register()
